@@ -29,6 +29,9 @@ static void __havoc_str(struct std_string *s) { CW(s, 0) = __g2c_nondet_ulong();
 void _ZNSaIcEC1Ev(void *this) { (void)this; }
 void _ZNSaIcED1Ev(void *this) { (void)this; }
 
+#ifndef VEC_AT_HOOK
+#define VEC_AT_HOOK(vec, n)   /* a contract may record which element std::vector<Value>::at was asked for */
+#endif
 #ifndef STR_FROM_CSTR_HOOK
 #define STR_FROM_CSTR_HOOK(str, cstr)
 #endif
@@ -145,7 +148,7 @@ char *_ZNSt6vectorIcSaIcEE4dataEv(struct vec_char *this)
 /* g_tab_elem (contracts/iface.h) stands for every element of the table */
 unsigned long _ZNKSt6vectorIN4bloc5ValueESaIS1_EE4sizeEv(const struct vec_Value *this) { LIVE((void *)this, 24, "std::vector<Value>::size"); return SZ(this); }
 struct Value *_ZNSt6vectorIN4bloc5ValueESaIS1_EE2atEm(struct vec_Value *this, unsigned long n)
-{ LIVE(this, 24, "std::vector<Value>::at"); if (n >= SZ(this)) { __throw_out_of_range(); return &g_tab_elem; } return &g_tab_elem; }
+{ LIVE(this, 24, "std::vector<Value>::at"); VEC_AT_HOOK(this, n) if (n >= SZ(this)) { __throw_out_of_range(); return &g_tab_elem; } return &g_tab_elem; }
 
 /* ---------------- iterators: begin(), it + n, conversion to const_iterator, erase(it) ----------------
  * an iterator is the index of the element it designates; erase(pos) requires pos to be dereferenceable
